@@ -25,71 +25,93 @@ Lemma bind_ok {A B} (r : result A) (f : A -> result B) b :
 Proof. destruct r; simpl; intro H; [eauto | discriminate]. Qed.
 
 Section OptProofs.
-  Variable af : point -> Q.
+  Variable af : point -> option Q.
   Variable restrict : nat -> batch -> batch.
   Variable gen : nat -> batch.
   Variable dom : point -> Prop.
   Hypothesis restrict_dom : forall k b, Forall dom (restrict k b).
   Hypothesis restrict_len : forall k b, length (restrict k b) = length b.
 
-  (* p is the first element of flat of maximal value v *)
+  (* p is the first element of flat whose value is defined and maximal among the defined values: its value is v, every
+     defined value before it is smaller, every defined value after it is not larger (None = NaN takes no part) *)
   Definition first_max (flat : batch) (p : point) (v : Q) : Prop :=
-    v = af p /\ exists l1 l2, flat = l1 ++ p :: l2 /\
-      (forall q, In q l1 -> af q < v) /\ (forall q, In q l2 -> af q <= v).
+    af p = Some v /\ exists l1 l2, flat = l1 ++ p :: l2 /\
+      (forall q w, In q l1 -> af q = Some w -> w < v) /\ (forall q w, In q l2 -> af q = Some w -> w <= v).
   Definition best_spec (flat : batch) (b : option (point * Q)) : Prop :=
     match b with None => flat = [] | Some (p, v) => first_max flat p v end.
+  (* what a nanargmax scan holds after having seen flat *)
+  Definition scan_spec (flat : batch) (c : option (point * Q)) : Prop :=
+    match c with None => forall q, In q flat -> af q = None | Some (p, v) => first_max flat p v end.
 
-  Lemma first_max_all_le flat p v : first_max flat p v -> forall q, In q flat -> af q <= v.
+  Lemma first_max_all_le flat p v : first_max flat p v -> forall q w, In q flat -> af q = Some w -> w <= v.
   Proof.
-    intros [Hv (l1 & l2 & E & H1 & H2)] q Hq. subst flat.
+    intros [Hv (l1 & l2 & E & H1 & H2)] q w Hq Hw. subst flat.
     apply in_app_or in Hq. destruct Hq as [Hq | [Hq | Hq]].
-    - apply Qlt_le_weak. auto.
-    - subst q. rewrite Hv. apply Qle_refl.
-    - auto.
+    - apply Qlt_le_weak. eauto.
+    - subst q. rewrite Hv in Hw. injection Hw as <-. apply Qle_refl.
+    - eauto.
   Qed.
   Lemma first_max_in flat p v : first_max flat p v -> In p flat.
   Proof. intros [_ (l1 & l2 & E & _)]. subst. apply in_or_app. right. left. reflexivity. Qed.
-
-  Lemma argmax_from_spec l : forall bp,
-    first_max (bp :: l) (fst (argmax_from af bp (af bp) l)) (snd (argmax_from af bp (af bp) l)).
-  Proof.
-    induction l as [|x l IH]; intros bp; simpl.
-    - split; [reflexivity|]. exists [], []. simpl. repeat split; intros q [].
-    - destruct (Qltb (af bp) (af x)) eqn:E.
-      + apply Qltb_true in E. specialize (IH x).
-        set (r := argmax_from af x (af x) l) in *.
-        pose proof (first_max_all_le _ _ _ IH x (or_introl eq_refl)) as Hx.
-        destruct IH as [Hv (l1 & l2 & El & H1 & H2)].
-        split; [exact Hv|]. exists (bp :: l1), l2. split; [simpl; rewrite El; reflexivity|]. split; [|exact H2].
-        intros q [Hq | Hq]; [subst q; lra | auto].
-      + apply Qltb_false in E. specialize (IH bp).
-        set (r := argmax_from af bp (af bp) l) in *.
-        destruct IH as [Hv (l1 & l2 & El & H1 & H2)].
-        split; [exact Hv|]. destruct l1 as [|q0 l1'].
-        * simpl in El. injection El as Ep El. exists [], (x :: l). split; [simpl; rewrite <- Ep; reflexivity|].
-          split; [intros q []|]. intros q [Hq | Hq].
-          -- subst q. rewrite Hv, <- Ep. exact E.
-          -- apply H2. rewrite <- El. exact Hq.
-        * simpl in El. injection El as Ep El. subst q0.
-          exists (bp :: x :: l1'), l2. split; [simpl; rewrite El; reflexivity|]. split; [|exact H2].
-          assert (Hb : af bp < snd r) by (apply H1; left; reflexivity).
-          intros q [Hq | [Hq | Hq]]; [subst q; exact Hb | subst q; lra | apply H1; right; exact Hq].
-  Qed.
+  Lemma first_max_defined flat p v : first_max flat p v -> af p = Some v.
+  Proof. intros [H _]. exact H. Qed.
 
   Lemma first_max_app_old flat pts p v :
-    first_max flat p v -> (forall q, In q pts -> af q <= v) -> first_max (flat ++ pts) p v.
+    first_max flat p v -> (forall q w, In q pts -> af q = Some w -> w <= v) -> first_max (flat ++ pts) p v.
   Proof.
     intros [Hv (l1 & l2 & E & H1 & H2)] Hp. split; [exact Hv|].
     exists l1, (l2 ++ pts). split; [subst flat; rewrite <- app_assoc; reflexivity|]. split; [exact H1|].
-    intros q Hq. apply in_app_or in Hq. destruct Hq; auto.
+    intros q w Hq. apply in_app_or in Hq. destruct Hq; eauto.
   Qed.
   Lemma first_max_app_new flat pts p v :
-    (forall q, In q flat -> af q < v) -> first_max pts p v -> first_max (flat ++ pts) p v.
+    (forall q w, In q flat -> af q = Some w -> w < v) -> first_max pts p v -> first_max (flat ++ pts) p v.
   Proof.
     intros Hf [Hv (l1 & l2 & E & H1 & H2)]. split; [exact Hv|].
     exists (flat ++ l1), l2. split; [subst pts; rewrite <- app_assoc; reflexivity|]. split; [|exact H2].
-    intros q Hq. apply in_app_or in Hq. destruct Hq; auto.
+    intros q w Hq. apply in_app_or in Hq. destruct Hq; eauto.
   Qed.
+  Lemma first_max_single x v : af x = Some v -> first_max [x] x v.
+  Proof. intro H. split; [exact H|]. exists [], []. repeat split; intros q w []. Qed.
+
+  Lemma scan_step pre x c :
+    scan_spec pre c ->
+    scan_spec (pre ++ [x])
+      match af x with
+      | None => c
+      | Some v => match c with
+                  | None => Some (x, v)
+                  | Some (_, bv) => if Qltb bv v then Some (x, v) else c
+                  end
+      end.
+  Proof.
+    intro Hc. destruct (af x) as [v|] eqn:Ex.
+    - destruct c as [[bp bv]|]; simpl in Hc.
+      + destruct (Qltb bv v) eqn:E.
+        * apply Qltb_true in E. simpl. apply first_max_app_new; [|apply first_max_single; exact Ex].
+          intros q w Hq Hw. pose proof (first_max_all_le _ _ _ Hc q w Hq Hw). lra.
+        * apply Qltb_false in E. simpl. apply first_max_app_old; [exact Hc|].
+          intros q w [Hq | []] Hw. subst q. rewrite Ex in Hw. injection Hw as <-. exact E.
+      + simpl. apply first_max_app_new; [|apply first_max_single; exact Ex].
+        intros q w Hq Hw. rewrite (Hc q Hq) in Hw. discriminate.
+    - destruct c as [[bp bv]|]; simpl in *.
+      + apply first_max_app_old; [exact Hc|]. intros q w [Hq | []] Hw. subst q. congruence.
+      + intros q Hq. apply in_app_or in Hq. destruct Hq as [Hq | [Hq | []]]; [auto | subst q; exact Ex].
+  Qed.
+
+  Lemma nanargmax_from_spec l : forall pre c,
+    scan_spec pre c -> scan_spec (pre ++ l) (nanargmax_from af c l).
+  Proof.
+    induction l as [|x l IH]; intros pre c Hc; simpl.
+    - rewrite app_nil_r. exact Hc.
+    - replace (pre ++ x :: l) with ((pre ++ [x]) ++ l) by (rewrite <- app_assoc; reflexivity).
+      pose proof (scan_step pre x c Hc) as Hs.
+      destruct (af x) as [v|]; [|apply IH; exact Hs].
+      destruct c as [[bp bv]|]; [|apply IH; exact Hs].
+      destruct (Qltb bv v); apply IH; exact Hs.
+  Qed.
+
+  Lemma nanargmax_spec pts : scan_spec pts (nanargmax_from af None pts).
+  Proof. apply (nanargmax_from_spec pts [] None). intros q []. Qed.
 
   Lemma concat_snoc (l : list batch) (b : batch) : concat (l ++ [b]) = concat l ++ b.
   Proof. rewrite concat_app. simpl. rewrite app_nil_r. reflexivity. Qed.
@@ -101,21 +123,39 @@ Section OptProofs.
     (forall p v, best s = Some (p, v) -> exists p' v', best s' = Some (p', v') /\ v <= v').
   Proof.
     intros Hs Hm. unfold monitor in Hm. destruct pts as [|x r]; [discriminate|].
+    pose proof (nanargmax_spec (x :: r)) as Hnow.
+    destruct (nanargmax_from af None (x :: r)) as [now|]; [|discriminate].
     injection Hm as Hm. subst s'. cbn [best evals rins].
-    pose proof (argmax_from_spec r x) as Hnow. set (now := argmax_from af x (af x) r) in *.
     split; [|split; [reflexivity|split; [reflexivity|]]].
     - rewrite concat_snoc. destruct (best s) as [[bp bv]|] eqn:Eb; simpl in Hs.
       + destruct (Qltb bv (snd now)) eqn:E.
         * apply Qltb_true in E. destruct now as [p v]. simpl in *. apply first_max_app_new; [|exact Hnow].
-          intros q Hq. pose proof (first_max_all_le _ _ _ Hs q Hq). lra.
+          intros q w Hq Hw. pose proof (first_max_all_le _ _ _ Hs q w Hq Hw). lra.
         * apply Qltb_false in E. simpl. apply first_max_app_old; [exact Hs|].
-          intros q Hq. pose proof (first_max_all_le _ _ _ Hnow q Hq). lra.
+          destruct now as [p v]. simpl in *.
+          intros q w Hq Hw. pose proof (first_max_all_le _ _ _ Hnow q w Hq Hw). lra.
       + rewrite Hs. simpl. destruct now as [p v]. exact Hnow.
     - split.
       + destruct (best s) as [[bp bv]|]; [destruct (Qltb bv (snd now))|]; try destruct now; eauto.
       + intros p v Ep. rewrite Ep. destruct (Qltb v (snd now)) eqn:E.
         * apply Qltb_true in E. destruct now as [p' v']. exists p', v'. split; [reflexivity|]. simpl in E. lra.
         * exists p, v. split; [reflexivity | apply Qle_refl].
+  Qed.
+
+  (* evaluate_and_monitor fails exactly on an empty batch and on a batch whose values are all NaN *)
+  Lemma monitor_err s pts e :
+    monitor af s pts = Err e -> e = ValueError /\ forall q, In q pts -> af q = None.
+  Proof.
+    unfold monitor. destruct pts as [|x r]; [intro H; injection H as <-; split; [reflexivity | intros q []]|].
+    pose proof (nanargmax_spec (x :: r)) as Hnow.
+    destruct (nanargmax_from af None (x :: r)) as [now|]; [discriminate|].
+    intro H. injection H as <-. split; [reflexivity | exact Hnow].
+  Qed.
+  Lemma monitor_defined s pts q w :
+    pts <> [] -> In q pts -> af q = Some w -> exists s', monitor af s pts = Ok s'.
+  Proof.
+    intros Hne Hq Hw. destruct (monitor af s pts) as [s'|e] eqn:E; [eauto|].
+    destruct (monitor_err _ _ _ E) as [_ Hall]. rewrite (Hall q Hq) in Hw. discriminate.
   Qed.
 
   (* ---------------------------------------------------------------- invariants *)
@@ -139,16 +179,17 @@ Section OptProofs.
   Proof.
     induction pop as [|p pop IH]; intros [|t r] q Hq; simpl in Hq; try contradiction.
     destruct Hq as [Hq | Hq].
-    - destruct (Qle_bool bv (af t)); subst q; [right|left]; left; reflexivity.
+    - destruct (af t) as [w|]; [destruct (Qle_bool bv w)|]; subst q; [right|left|left]; left; reflexivity.
     - destruct (IH _ _ Hq); [left|right]; right; assumption.
   Qed.
   Lemma replace_spec bv : forall pop r, length r = length pop ->
-    Forall2 (fun old new => new = old \/ (In new r /\ bv <= af new)) pop (replace af bv pop r).
+    Forall2 (fun old new => new = old \/ (In new r /\ exists w, af new = Some w /\ bv <= w)) pop (replace af bv pop r).
   Proof.
     induction pop as [|p pop IH]; intros [|t r] Hl; simpl in *; try discriminate; [constructor|].
     constructor.
-    - destruct (Qle_bool bv (af t)) eqn:E; [right|left; reflexivity].
-      apply Qle_bool_iff in E. split; [left; reflexivity | exact E].
+    - destruct (af t) as [w|] eqn:Et; [|left; reflexivity].
+      destruct (Qle_bool bv w) eqn:E; [right|left; reflexivity].
+      apply Qle_bool_iff in E. split; [left; reflexivity | exists w; split; [exact Et | exact E]].
     - injection Hl as Hl. specialize (IH r Hl).
       eapply Forall2_imp; [|exact IH]. intros a b [H | [H1 H2]]; [left; exact H | right; split; [right; exact H1 | exact H2]].
   Qed.
@@ -169,7 +210,8 @@ Section OptProofs.
     Inv s' pop' /\
     (exists r, evals s' = evals s ++ [r] /\ Forall dom r /\ length r = length pop /\ length pop = de_n P) /\
     exists bp bv, best s' = Some (bp, bv) /\
-      Forall2 (fun old new => new = old \/ (af old <= af new /\ af new == bv)) pop pop'.
+      Forall2 (fun old new => new = old \/
+                 exists w, af new = Some w /\ w == bv /\ forall u, af old = Some u -> u <= w) pop pop'.
   Proof.
     intros [(Hb & He & Hp) Hi] Hstep. unfold de_step in Hstep. destruct d as [sel us].
     destruct (de_n P <? 2)%nat; [discriminate|].
@@ -203,16 +245,17 @@ Section OptProofs.
     - exists bp, bv. split; [exact Eb2|].
       simpl in Hb2.
       pose proof (replace_spec bv pop r Hrl) as HF.
-      assert (Hold : forall q, In q pop -> af q <= bv).
-      { intros q Hq. apply (first_max_all_le _ _ _ Hb2). rewrite Ee, concat_snoc. apply in_or_app. left. apply Hi. exact Hq. }
-      assert (Hr' : forall q, In q r -> af q <= bv).
-      { intros q Hq. apply (first_max_all_le _ _ _ Hb2). apply Hincl. exact Hq. }
+      assert (Hold : forall q u, In q pop -> af q = Some u -> u <= bv).
+      { intros q u Hq. apply (first_max_all_le _ _ _ Hb2). rewrite Ee, concat_snoc. apply in_or_app. left. apply Hi. exact Hq. }
+      assert (Hr' : forall q u, In q r -> af q = Some u -> u <= bv).
+      { intros q u Hq. apply (first_max_all_le _ _ _ Hb2). apply Hincl. exact Hq. }
       clearbody r. clear - HF Hold Hr'.
       induction HF as [|old new l l' H HF IH]; constructor.
-      + destruct H as [H | [H1 H2]]; [left; exact H | right].
-        pose proof (Hr' new H1) as Hle.
-        pose proof (Hold old (or_introl eq_refl)). split; lra.
-      + apply IH. intros q Hq. apply Hold. right. exact Hq.
+      + destruct H as [H | [H1 (w & Hw & H2)]]; [left; exact H | right].
+        pose proof (Hr' new w H1 Hw) as Hle.
+        exists w. split; [exact Hw|]. split; [lra|].
+        intros u Hu. pose proof (Hold old u (or_introl eq_refl) Hu). lra.
+      + apply IH. intros q u Hq. apply Hold. right. exact Hq.
   Qed.
 
   Lemma de_loop_spec P : forall ds s pop s' pop',
@@ -235,7 +278,7 @@ Section OptProofs.
     (* the returned point is the first evaluated point of maximal value, and its reported value is reproducible *)
     (exists p v, best s = Some (p, v) /\ first_max (concat (evals s)) p v /\
        (* never lower than the value at any domain-restricted starting point *)
-       (forall q, In q (restrict 0 starting) -> af q <= v)) /\
+       (forall q w, In q (restrict 0 starting) -> af q = Some w -> w <= v)) /\
     (* OptimizationResults *)
     o_start o = starting /\ o_vals o = map af (o_end o) /\ Forall dom (o_end o) /\
     exists pre, evals s = pre ++ [o_end o].
@@ -261,7 +304,7 @@ Section OptProofs.
     unfold run_ok. cbn [o_state o_start o_end o_vals].
     split; [exact He3|]. split; [|repeat split; eauto].
     exists p, v. split; [exact Eb|]. rewrite Eb in Hb3. simpl in Hb3. split; [exact Hb3|].
-    intros q Hq. apply (first_max_all_le _ _ _ Hb3).
+    intros q w Hq. apply (first_max_all_le _ _ _ Hb3).
     rewrite Ee3, concat_snoc, Eext, concat_app, Ee1, concat_snoc.
     apply in_or_app. left. apply in_or_app. left. apply in_or_app. right. exact Hq.
   Qed.
@@ -275,7 +318,8 @@ Section OptProofs.
     de_step af restrict P (s, pop) d = Ok (s', pop') ->
     Forall dom pop /\ Forall dom pop' /\ length pop = de_n P /\
     exists bv, option_map snd (best s') = Some bv /\
-      Forall2 (fun old new => new = old \/ (af old <= af new /\ af new == bv)) pop pop'.
+      Forall2 (fun old new => new = old \/
+                 exists w, af new = Some w /\ w == bv /\ forall u, af old = Some u -> u <= w) pop pop'.
   Proof.
     intros Hm1 Hloop Hstep.
     assert (HA0 : InvA (fst (do_restrict restrict init (starting_points gen (de_n P) selected)))
@@ -324,7 +368,7 @@ Section OptProofs.
     unfold run_ok. cbn [o_state o_start o_end o_vals].
     split; [exact He2|]. split; [|repeat split; eauto].
     exists q, v. split; [exact Eb|]. rewrite Eb in Hb2. simpl in Hb2. split; [exact Hb2|].
-    intros x Hx. apply (first_max_all_le _ _ _ Hb2).
+    intros x w Hx. apply (first_max_all_le _ _ _ Hb2).
     rewrite Ee2, Eext, !concat_app. apply in_or_app. right. apply in_or_app. left. simpl. rewrite app_nil_r. exact Hx.
   Qed.
 End OptProofs.
